@@ -760,20 +760,22 @@ func (interp *Interpreter) ast(f ast.Node) (string, *node, error) {
 			n := addChild(&root, anc, pos, identExpr, aNop)
 			n.ident = a.Name
 			st.push(n, nod)
-			if n.anc.kind == defineStmt && n.anc.anc.kind == constDecl && n.anc.nright == 0 {
-				// Implicit assign expression (in a ConstDecl block).
-				// Clone assign source and type from previous
+			if n.anc.kind == defineStmt && n.anc.anc.kind == constDecl && n.anc.nright == 0 && len(n.anc.child) == n.anc.nleft {
+				// Implicit assign expression (in a ConstDecl block), all the names of
+				// which are known: clone assign sources and type from previous.
 				a := n.anc
 				pa := a.anc.child[childPos(a)-1]
 
 				if len(pa.child) > pa.nleft+pa.nright {
 					// duplicate previous type spec
-					a.child = append(a.child, interp.dup(pa.child[a.nleft], a))
+					a.child = append(a.child, interp.dup(pa.child[pa.nleft], a))
 				}
 
-				// duplicate previous assign right hand side
-				a.child = append(a.child, interp.dup(pa.lastChild(), a))
-				a.nright++
+				// duplicate previous assign right hand sides
+				for _, c := range pa.child[len(pa.child)-pa.nright:] {
+					a.child = append(a.child, interp.dup(c, a))
+					a.nright++
+				}
 			}
 
 		case *ast.IfStmt:
